@@ -131,12 +131,12 @@ class Tr:
             return self.sig['constants'][key], False
         if isinstance(n, ast.BoolOp):
             op = {ast.And: ' && ', ast.Or: ' || '}[type(n.op)]
-            return op.join(paren(self.pure(v, env)) for v in n.values), False
+            return op.join(paren(self.cond(v, env)) for v in n.values), False
         if isinstance(n, ast.UnaryOp) and isinstance(n.op, ast.Not) and isinstance(n.operand, ast.Name) \
                 and env.get(n.operand.id) in self.sig.get('falsy', {}):
             return self.sig['falsy'][env[n.operand.id]].format(n.operand.id), False
         if isinstance(n, ast.UnaryOp) and isinstance(n.op, ast.Not):
-            return 'negb %s' % paren(self.pure(n.operand, env)), False
+            return 'negb %s' % paren(self.cond(n.operand, env)), False
         if isinstance(n, ast.Compare) and len(n.ops) == 1:
             l, r, op = n.left, n.comparators[0], n.ops[0]
             if isinstance(op, (ast.Is, ast.IsNot)) and isinstance(r, ast.Constant) and r.value is None:
@@ -173,6 +173,19 @@ class Tr:
                 t = 'forallb (fun %s => %s) %s' % (name, t, paren(it))
             return t, False
         raise Unsupported(n, 'expression %s not in the subset' % type(n).__name__)
+
+    def cond(self, n, env):
+        """a python truth value: a bool-typed term, or the typed emptiness test of a bare name"""
+        if isinstance(n, ast.Name):
+            ty = env.get(n.id)
+            if ty == 'bool':
+                return n.id
+            if ty in self.sig.get('falsy', {}):
+                return 'negb (%s)' % self.sig['falsy'][ty].format(n.id)
+            raise Unsupported(n, 'truth value of %r : %s' % (n.id, ty))
+        if isinstance(n, ast.Constant):
+            raise Unsupported(n, 'constant as a truth value')
+        return self.pure(n, env)
 
     def pure(self, n, env, want=None):
         t, r = self.expr(n, env, want)
@@ -246,7 +259,7 @@ class Tr:
             return '%slet %s : %s := %s in\n%s' % (pad, s.name, ty, lam['wrap'].format('fun %s => %s' % (' '.join(binders), bt)),
                                                     self.stmts(rest, env3, fall, ind))
         if isinstance(s, ast.If):
-            c = self.pure(s.test, env)
+            c = self.cond(s.test, env)
             falls = not (self.terminates(s.body) and self.terminates(s.orelse))
             if not falls and rest:
                 raise Unsupported(rest[0], 'unreachable statement')
